@@ -720,6 +720,27 @@ def run_roots(ctx, spec):
 
 
 def run(ctx, spec):
+  from paranoid_crypto.lib import ntheory_util as ntu
+  from paranoid_crypto.lib.randomness_tests import lattice_suite as ls
+  from paranoid_crypto.lib.randomness_tests import util as ru
+  from vp import contracts
+  pm = contracts.PurityMonitor(ctx, keep=120)
+  for f in ('Inverse2exp', 'InverseSqrt2exp', 'Sqrt2exp', 'ContinuedFraction',
+            'DivmodRounded', 'Sieve', 'FastProduct'):
+    pm.wrap(ntu, f)
+  for f in ('UniformSumCdf', 'CombinedPValue', 'Igamc', 'NormalCdf',
+            'BinomialCdf'):
+    pm.wrap(ru, f)
+  for f in ('Bias', 'PseudoAverage'):
+    pm.wrap(ls, f)
+  try:
+    _run(ctx, spec)
+    pm.recheck()
+  finally:
+    pm.restore()
+
+
+def _run(ctx, spec):
   s = spec['shard']
   if s == 'adic-exh':
     run_adic_exh(ctx, spec)
